@@ -81,6 +81,13 @@ func parseExtensions(e []AnyExtension) ([]config.ExtensionConfig, error) {
 				return nil, fmt.Errorf("field '%v' can't be casted properly", innerStructTyp.Name)
 			}
 
+			if custom, ok := innerStructAny.(CustomExtension); ok {
+				//Oid() has no way to report this later
+				if _, err := cert.OidFromString(custom.OidStr); err != nil {
+					return nil, fmt.Errorf("extension number %d: '%v' is not a valid oid", i, custom.OidStr)
+				}
+			}
+
 			out = append(out, innerStruct)
 		}
 
